@@ -7,7 +7,11 @@
 (*     the surface and is ignored otherwise, for all sizes (unbounded       *)
 (*     naturals here: no word size appears in this module);                 *)
 (*   - rendering a surface tree paints each child at its offset, clipped to *)
-(*     its parent, in z-order.                                              *)
+(*     its parent, in z-order: what a terminal shows in a column is the     *)
+(*     cell of the surface painted last over that column.  A grapheme that  *)
+(*     takes two columns is shown when both columns are its surface's; it   *)
+(*     cannot be shown in half, and the cells of the surface painted over   *)
+(*     its other column are demanded like any others.                       *)
 (* Pure operators only; shared by MC_Surface and Surface_Trace.             *)
 EXTENDS Integers, Sequences, FiniteSets
 
@@ -20,10 +24,12 @@ WriteEffect(w, h, c, r) == IF Inside(w, h, c, r) THEN {Index(w, c, r)} ELSE {}
 
 (* ---- painting -----------------------------------------------------------*)
 (* A surface is [w, h, fg, cells, kids]:                                    *)
-(*   cells = sequence of <<c, r, g>> writes that landed (later wins),       *)
+(*   cells = sequence of <<c, r, g, gw>> writes that landed (later wins);   *)
+(*           gw = number of columns the grapheme g takes on a terminal      *)
+(*           (a logged fact: 1, or 2 for a wide grapheme),                  *)
 (*   kids  = sequence of [x, y, z, s] (origin relative to this surface,     *)
 (*           z-index, child surface).  fg is the fill colour of every cell. *)
-(* A painted cell is <<g, fg>>; g = 0 is a blank.                           *)
+(* g = 0 is a blank.                                                        *)
 BlankG == 0
 
 SetMax(S) == CHOOSE m \in S : \A o \in S : o <= m
@@ -38,26 +44,113 @@ TopKid(s, px, py) ==
   LET c == {i \in 1..Len(s.kids) : Covers(s.kids[i], px, py)}
   IN IF c = {} THEN 0 ELSE CHOOSE i \in c : \A j \in c : Above(s.kids, i, j)
 
+Hits(s, px, py) == {i \in 1..Len(s.cells) : s.cells[i][1] = px /\ s.cells[i][2] = py}
 OwnCell(s, px, py) ==
-  LET hits == {i \in 1..Len(s.cells) : s.cells[i][1] = px /\ s.cells[i][2] = py}
-  IN IF hits = {} THEN <<BlankG, s.fg>> ELSE <<s.cells[SetMax(hits)][3], s.fg>>
+  LET hits == Hits(s, px, py)
+  IN IF hits = {} THEN [g |-> BlankG, w |-> 1, fg |-> s.fg]
+     ELSE [g |-> s.cells[SetMax(hits)][3], w |-> s.cells[SetMax(hits)][4], fg |-> s.fg]
 
-(* What shows at point (px,py) of surface s, (px,py) being inside s: a      *)
-(* child is visible only inside its parent because only points inside the   *)
-(* parent are ever asked for (clipping), and a child covers its whole       *)
-(* rectangle, written or not.                                               *)
-RECURSIVE CellAt(_, _, _)
-CellAt(s, px, py) ==
+(* Which surface shows at point (px,py) of surface s, (px,py) being inside  *)
+(* s: the topmost child covering the point, recursively (a child covers its *)
+(* whole rectangle, written or not; it is visible only inside its parent    *)
+(* because only points inside the parent are ever asked for: clipping).     *)
+(* path = the child indices leading to it, (x, y) = the point in its own    *)
+(* coordinates.                                                             *)
+RECURSIVE Owner(_, _, _, _)
+Owner(s, px, py, path) ==
   LET k == TopKid(s, px, py)
-  IN IF k = 0 THEN OwnCell(s, px, py)
-     ELSE CellAt(s.kids[k].s, px - s.kids[k].x, py - s.kids[k].y)
+  IN IF k = 0 THEN [path |-> path, s |-> s, x |-> px, y |-> py]
+     ELSE Owner(s.kids[k].s, px - s.kids[k].x, py - s.kids[k].y, Append(path, k))
 
-(* The screen (1-based rows of 1-based columns) after the root surface has  *)
-(* been rendered at the origin of a cleared rows x cols screen.             *)
-Screen(root, rows, cols) ==
-  [y \in 1..rows |-> [x \in 1..cols |->
-     IF Inside(root.w, root.h, x - 1, y - 1) THEN CellAt(root, x - 1, y - 1)
-     ELSE <<BlankG, 0>>]]
+(* Is the point inside every surface on the way down path (none of them     *)
+(* clips it away)?                                                          *)
+RECURSIVE InsideAll(_, _, _, _)
+InsideAll(s, path, px, py) ==
+  /\ Inside(s.w, s.h, px, py)
+  /\ path # <<>> => LET k == s.kids[path[1]]
+                    IN Covers(k, px, py) /\ InsideAll(k.s, Tail(path), px - k.x, py - k.y)
+
+(* What is demanded of one screen cell:                                     *)
+(*   [k |-> "g", g, w, fg]  exactly this grapheme, shown w columns wide, in *)
+(*                          colour fg and no other styling;                 *)
+(*   [k |-> "c"]            the right part of the wide glyph demanded to    *)
+(*                          its left;                                       *)
+(*   [k |-> "b"]            the column belongs to a surface whose wide      *)
+(*                          glyph there has another of its columns under a  *)
+(*                          surface painted later: that surface's cells are *)
+(*                          demanded exactly in their columns, so the glyph *)
+(*                          cannot be shown; the column must show a narrow  *)
+(*                          cell (no part of any wide glyph);               *)
+(*   [k |-> "u"]            not stated by the property (a wide glyph cut by *)
+(*                          the edge of its own surface, of an ancestor or  *)
+(*                          of the screen, or a surface that wrote a cell   *)
+(*                          of its own under its own wide glyph): a frame   *)
+(*                          with such a cell is not judged.                 *)
+WantG(a) == [k |-> "g", g |-> a.g, w |-> a.w, fg |-> a.fg]
+WantC == [k |-> "c"]
+WantB == [k |-> "b"]
+WantU == [k |-> "u"]
+Visible(root, cols, px, py) == px < cols /\ Inside(root.w, root.h, px, py)
+
+(* One screen row (0-based y), laid out from column x (0-based) on: every   *)
+(* column shows the cell of the surface that owns it; a wide glyph needs    *)
+(* all its columns to be owned by the same surface.                         *)
+RECURSIVE WantRow(_, _, _, _, _)
+WantRow(root, cols, y, x, acc) ==
+  IF x >= cols THEN acc
+  ELSE IF ~Inside(root.w, root.h, x, y)
+       THEN WantRow(root, cols, y, x + 1, Append(acc, [k |-> "g", g |-> BlankG, w |-> 1, fg |-> 0]))
+  ELSE
+    LET o == Owner(root, x, y, <<>>)
+        a == OwnCell(o.s, o.x, o.y)
+        rest == (x + 1)..(x + a.w - 1)           \* the further columns of a wide glyph
+        whole == \A q \in rest : Visible(root, cols, q, y) /\ Owner(root, q, y, <<>>).path = o.path
+        cut == \E q \in rest : \/ ~Visible(root, cols, q, y)
+                                \/ ~InsideAll(root, o.path, q, y)
+        ownUnder == \E q \in rest : Hits(o.s, o.x + (q - x), o.y) # {}
+    IN IF a.w < 1 THEN WantRow(root, cols, y, x + 1, Append(acc, WantU))
+       ELSE IF a.w = 1 THEN WantRow(root, cols, y, x + 1, Append(acc, WantG(a)))
+       ELSE IF cut \/ ownUnder THEN WantRow(root, cols, y, x + 1, Append(acc, WantU))
+       ELSE IF whole THEN WantRow(root, cols, y, x + a.w, Append(acc, WantG(a)) \o [i \in 1..(a.w - 1) |-> WantC])
+       ELSE WantRow(root, cols, y, x + 1, Append(acc, WantB))
+
+(* The demand on the screen (1-based rows of 1-based columns) after the     *)
+(* root surface has been rendered at the origin of a cleared rows x cols    *)
+(* screen.                                                                  *)
+Want(root, rows, cols) == [y \in 1..rows |-> WantRow(root, cols, y - 1, 0, <<>>)]
+
+Judged(want, rows, cols) == \A y \in 1..rows : \A x \in 1..cols : want[y][x].k # "u"
+
+(* A displayed cell is [k |-> "g", g, w, fg, plain] (plain: no background,  *)
+(* attribute, underline or hyperlink), [k |-> "c"] (covered by the wide     *)
+(* glyph to its left) or [k |-> "x"] (not determined by what was sent).     *)
+CellConforms(shown, want) ==
+  CASE want.k = "g" -> /\ shown.k = "g" /\ shown.g = want.g /\ shown.w = want.w
+                       /\ shown.fg = want.fg /\ shown.plain
+    [] want.k = "c" -> shown.k = "c"
+    [] want.k = "b" -> shown.k = "g" /\ shown.w = 1
+    [] OTHER        -> TRUE
+
+ScreenConforms(shown, want, rows, cols) ==
+  \A y \in 1..rows : \A x \in 1..cols : CellConforms(shown[y][x], want[y][x])
+
+(* names of the failing clauses, for the rejection signature *)
+BadFields(shown, want) ==
+  IF want.k = "b" THEN {"partly-covered-wide-glyph-shown"}
+  ELSE IF shown.k # want.k THEN {"kind:" \o shown.k \o "/" \o want.k}
+  ELSE IF want.k # "g" THEN {}
+  ELSE (IF shown.g # want.g THEN {"grapheme"} ELSE {})
+       \cup (IF shown.w # want.w THEN {"width"} ELSE {})
+       \cup (IF shown.fg # want.fg THEN {"fg"} ELSE {})
+       \cup (IF ~shown.plain THEN {"style"} ELSE {})
+
+BadCells(shown, want, rows, cols) ==
+  {<<y, x>> \in (1..rows) \X (1..cols) : ~CellConforms(shown[y][x], want[y][x])}
+FirstBad(shown, want, rows, cols) ==
+  LET b == BadCells(shown, want, rows, cols)
+  IN IF b = {} THEN <<>>
+     ELSE LET p == CHOOSE p \in b : \A q \in b : p[1] < q[1] \/ (p[1] = q[1] /\ p[2] <= q[2])
+          IN <<p, shown[p[1]][p[2]], want[p[1]][p[2]], BadFields(shown[p[1]][p[2]], want[p[1]][p[2]])>>
 
 (* ---- AddChild -----------------------------------------------------------*)
 (* Appending a child records exactly the requested origin.                  *)
